@@ -821,3 +821,37 @@ def literal_rule_delegates(check: Check, repo: Repo, rule: str = "LITERAL-RULE-D
         check.ob(rule, m, f"{m.name} delegates to is_valid_value_node", ok, "calls is_valid_value_node" if ok else "decides without is_valid_value_node")
     if len(leaf_handlers) < 5:
         raise AnalysisError("ValuesOfCorrectTypeRule: leaf literal handlers not found")
+
+
+def float_exact(check: Check, repo: Repo, rule: str = "FLOAT-EXACT") -> None:
+    check.rule(
+        rule,
+        "in type/scalars.py a function that returns a float and converts an *exact* number with float(<parameter>) - the "
+        "parameter is not annotated str (text is parsed to the nearest double by definition) or float (already a double) - "
+        "compares the converted number with the original before returning it (`int(num) != value`, `num != value` ...), so "
+        "that a value a double cannot hold is refused instead of rounded: Float must not emit 9007199254740992.0 for "
+        "9007199254740993, whichever exact type (int, Decimal, Fraction) carried it",
+    )
+    mod = repo.mod("type.scalars")
+    n = 0
+    for fn in mod.functions():
+        if parent(fn) is not mod.tree or (unparse(fn.returns) if fn.returns is not None else "") != "float":
+            continue
+        params = {a.arg: (unparse(a.annotation) if a.annotation is not None else "") for a in fn.args.args}
+        for c in walk_body(fn):
+            if not (isinstance(c, ast.Call) and isinstance(c.func, ast.Name) and c.func.id == "float" and len(c.args) == 1
+                    and isinstance(c.args[0], ast.Name) and c.args[0].id in params):
+                continue
+            p = c.args[0].id
+            if params[p] in ("str", "float"):
+                continue
+            n += 1
+            asg = parent(c)
+            res = asg.targets[0].id if isinstance(asg, ast.Assign) and isinstance(asg.targets[0], ast.Name) else None
+            cmps = [k for k in walk_body(fn) if isinstance(k, ast.Compare) and any(isinstance(o, (ast.Eq, ast.NotEq)) for o in k.ops)
+                    and res is not None and {res, p} <= {x.id for x in ast.walk(k) if isinstance(x, ast.Name)} and k.lineno > c.lineno]
+            check.ob(rule, c, f"{fn.name}: float({p}) with `{p}: {params[p] or 'unannotated'}`", bool(cmps),
+                     f"checked by `{unparse(cmps[0])}`" if cmps else
+                     f"the converted value is never compared with `{p}`: an exact {params[p] or 'number'} beyond 2**53 is rounded silently")
+    if n < 1:
+        raise AnalysisError("FLOAT-EXACT: no exact-number conversion found (coerce_float_from_int expected)")
